@@ -405,3 +405,63 @@ class SortAxisKey(Contract):
             yield "other-axis-unchanged", list(result.axes[1].values) == list(np.asarray(env["labels"][1]))
         yield "metadata-kept", dict(result.attrs) == env["attrs0"]
         yield "operand-untouched", same(env["arr"].values, data) and [float(v) for v in env["arr"].axes[0].values] == L
+
+
+class SelectNative(Contract):
+    """BOUNDED STAND-IN ONLY (never counted as proved).  Two selection forms not under a symbolic contract: take_axis(labels,
+    axis) in LABEL mode (the slices at the listed labels, in the listed order, each with its label; IndexError for an absent
+    label) and compress(mask) with a FULL N-d boolean mask (the selected cells in row-major order over a grouped axis whose
+    labels are the selected coordinates).  Evaluated on the real code over arrays of rank 1-2, extents 1-3.  [C17]"""
+    target = "dimarray.core.dimarraycls:DimArray.take_axis"
+    props = ("C17",)
+    native_only = True
+
+    def cases(self, tier):
+        for rank in (1, 2):
+            for form in ("take_axis-label", "compress-ndmask"):
+                yield {"name": "r%d-%s" % (rank, form), "rank": rank, "form": form}
+
+    def setup(self, S, case):
+        env = _setup(S, case["rank"])
+        for L in env["labels"]:
+            S.assume(S.n(L) >= 1, "non-empty")
+        if case["form"] == "take_axis-label":
+            env["q"] = S.array1d("q", "I")
+        else:
+            env["mask"] = S.arraynd("mask", "b", tuple(S.n(L) for L in env["labels"]))
+        return env
+
+    def call(self, fn, env):
+        import numpy as np
+        arr, case = env["arr"], env["case"]
+        if case["form"] == "take_axis-label":
+            L = np.asarray(env["labels"][0])
+            pos = [int(t) % len(L) for t in np.asarray(env["q"])]
+            env["pos"] = pos
+            return arr.take_axis([L[p] for p in pos], axis="x0", indexing="label")
+        return arr.compress(np.asarray(env["mask"], dtype=bool))
+
+    def post(self, S, case, env, result):
+        import numpy as np
+        rank = case["rank"]
+        data = np.asarray(env["data"], dtype=float)
+        labels = [np.asarray(L) for L in env["labels"]]
+        same = lambda x, y: np.asarray(x).shape == np.asarray(y).shape and bool(np.all((np.asarray(x, dtype=float) == np.asarray(y, dtype=float)) | (np.isnan(np.asarray(x, dtype=float)) & np.isnan(np.asarray(y, dtype=float)))))
+        if case["form"] == "take_axis-label":
+            pos = env["pos"]
+            yield "labels-in-the-listed-order", list(result.axes[0].values) == [labels[0][p] for p in pos]
+            yield "each-slice-with-its-label", same(result.values, data[pos] if pos else data[:0])
+            if rank == 2:
+                yield "other-axis-unchanged", list(result.axes[1].values) == list(labels[1])
+            yield "metadata-kept", dict(result.attrs) == env["attrs0"]
+        else:
+            mask = np.asarray(env["mask"], dtype=bool)
+            want = data[mask]
+            if np.ndim(result) == 0 and not S.is_dimarray(result):
+                yield "single-selected-cell", want.size == 1 and same(result, want[0])
+            else:
+                yield "selected-cells-in-row-major-order", same(result.values, want)
+                coords = [tuple(labels[d][i[d]] for d in range(rank)) if rank > 1 else labels[0][i[0]] for i in np.argwhere(mask)]
+                got = [tuple(t) if rank > 1 else t for t in result.axes[0].values]
+                yield "labels-are-the-selected-coordinates", got == coords
+        yield "operand-untouched", same(env["arr"].values, data)
